@@ -127,6 +127,25 @@ pub fn engine_of(e: u8) -> HintEngine {
     }
 }
 
+/// Engine code 3: the auto-hinter with glyph styles computed once per font and shared by every
+/// instance of that font (the documented way to amortise style computation): state that outlives
+/// each instance and each reconfigure.
+pub fn engine_for(cfg: &Config) -> HintEngine {
+    if cfg.engine != 3 {
+        return engine_of(cfg.engine);
+    }
+    static STYLES: OnceLock<Vec<OnceLock<Option<skrifa::outline::GlyphStyles>>>> = OnceLock::new();
+    let all = STYLES.get_or_init(|| pool().iter().map(|_| OnceLock::new()).collect());
+    let s = all[cfg.font].get_or_init(|| {
+        let fr = FontRef::new(pool()[cfg.font].data).ok()?;
+        Some(skrifa::outline::GlyphStyles::new(&fr.outline_glyphs()))
+    });
+    match s {
+        Some(s) => HintEngine::Auto(Some(s.clone())),
+        None => HintEngine::Auto(None),
+    }
+}
+
 pub fn size_of(q: u32) -> Size {
     if q == 0 {
         Size::unscaled()
@@ -255,7 +274,7 @@ pub fn make_instance(cfg: &Config) -> Result<HintingInstance, String> {
     let fr = FontRef::new(pf.data).map_err(|_| "open".to_string())?;
     let outlines = fr.outline_glyphs();
     let coords = coords_of(&cfg.coords);
-    HintingInstance::new(&outlines, size_of(cfg.size_q), LocationRef::new(&coords), HintingOptions { engine: engine_of(cfg.engine), target: target_of(cfg.target) }).map_err(|e| err_kind(&e))
+    HintingInstance::new(&outlines, size_of(cfg.size_q), LocationRef::new(&coords), HintingOptions { engine: engine_for(cfg), target: target_of(cfg.target) }).map_err(|e| err_kind(&e))
 }
 
 pub fn reconfigure(inst: &mut HintingInstance, cfg: &Config) -> Result<(), String> {
@@ -263,7 +282,7 @@ pub fn reconfigure(inst: &mut HintingInstance, cfg: &Config) -> Result<(), Strin
     let fr = FontRef::new(pf.data).map_err(|_| "open".to_string())?;
     let outlines = fr.outline_glyphs();
     let coords = coords_of(&cfg.coords);
-    inst.reconfigure(&outlines, size_of(cfg.size_q), LocationRef::new(&coords), HintingOptions { engine: engine_of(cfg.engine), target: target_of(cfg.target) }).map_err(|e| err_kind(&e))
+    inst.reconfigure(&outlines, size_of(cfg.size_q), LocationRef::new(&coords), HintingOptions { engine: engine_for(cfg), target: target_of(cfg.target) }).map_err(|e| err_kind(&e))
 }
 
 pub fn draw_hinted(inst: &HintingInstance, font: usize, glyph: u32, pedantic: bool, hb: bool, mem: &Mem) -> Observed {
@@ -339,6 +358,29 @@ pub fn gen_config(rng: &mut Rng, prefer_synth: bool) -> Config {
     Config { font, size_q, coords, engine, target: rng.below(7) as u8 }
 }
 
+/// A configuration one step away from `old`: the same font with one or two of location, size, target
+/// and engine changed - what a text stack does between runs of text, and where state kept "because
+/// nothing relevant changed" goes wrong.
+pub fn gen_neighbour_config(rng: &mut Rng, old: &Config) -> Config {
+    let pf = &pool()[old.font];
+    let mut c = old.clone();
+    for _ in 0..1 + rng.below(2) {
+        match rng.below(5) {
+            0 | 1 if pf.n_axes > 0 => {
+                c.coords = match rng.below(5) {
+                    0 => vec![],
+                    1 => vec![0; pf.n_axes],
+                    _ => (0..pf.n_axes).map(|_| *rng.pick(&[-16384i16, -8192, -3000, 0, 4096, 8192, 16384])).collect(),
+                }
+            }
+            2 => c.size_q = 4 * (6 + rng.below(40) as u32),
+            3 => c.target = rng.below(7) as u8,
+            _ => c.engine = if pf.synthetic { *rng.pick(&[0u8, 2, 1]) } else { *rng.pick(&[0u8, 1, 2, 3, 3]) },
+        }
+    }
+    c
+}
+
 pub fn gen_mem(rng: &mut Rng) -> Mem {
     match rng.below(5) {
         0 | 1 => Mem::Lib,
@@ -390,11 +432,14 @@ impl Engine for DrawHistory {
             let have = cfgs[slot].is_some();
             let k = rng.below(10);
             if !have || k == 0 {
-                let cfg = gen_config(&mut rng, true);
+                let mut cfg = gen_config(&mut rng, true);
+                if !pool()[cfg.font].synthetic && pool()[cfg.font].is_glyf && rng.chance(1, 5) {
+                    cfg.engine = 3;
+                }
                 cfgs[slot] = Some(cfg.clone());
                 ops.push(Op::New { slot, cfg });
             } else if k <= 3 {
-                let cfg = gen_config(&mut rng, true);
+                let cfg = if rng.chance(1, 2) { gen_neighbour_config(&mut rng, cfgs[slot].as_ref().unwrap()) } else { gen_config(&mut rng, true) };
                 cfgs[slot] = Some(cfg.clone());
                 ops.push(Op::Reconfigure { slot, cfg });
             } else if k == 4 && n_slots > 1 {
@@ -685,7 +730,7 @@ impl Engine for ConcurrentDraws {
         };
         let mut cfg = gen_config(&mut rng, false);
         cfg.font = font;
-        cfg.engine = 1;
+        cfg.engine = if rng.chance(1, 3) { 3 } else { 1 };
         cfg.coords = if p[font].n_axes > 0 && rng.chance(1, 2) { (0..p[font].n_axes).map(|_| *rng.pick(&[-8192i16, 0, 8192, 16384])).collect() } else { vec![] };
         if cfg.size_q == 0 {
             cfg.size_q = 64;
@@ -701,6 +746,7 @@ impl Engine for ConcurrentDraws {
         // one-off initialisation (building the synthetic fonts compiles tables and would pass
         // through the object-id scheduling point) must happen outside the simulated execution
         let _ = pool();
+        let _ = engine_for(&t.cfg); // shared glyph styles are computed here, not inside the simulated execution
         let results: Arc<Mutex<Vec<(usize, usize, Observed)>>> = Arc::new(Mutex::new(Vec::new()));
         let tt = t.clone();
         let res = results.clone();
